@@ -108,6 +108,7 @@ class World:
         self.crash = None
         self.tag = ""
         self.has_truth = True   # every document in docs is one of gts (so entry ids can be computed)
+        self.sparse = {}        # relative path tuple -> size: files created with truncate() only (no data blocks)
 
     def add_file(self, path, content, group=None):
         """returns False (and does nothing) when the path collides with an existing file or directory"""
@@ -241,6 +242,12 @@ def materialise(w, base):
                 f.write(content)
             if grp is not None:
                 groups[grp] = fp
+    for p, size in sorted(w.sparse.items()):
+        fp = path_bytes(root, p)
+        os.makedirs(os.path.dirname(fp), exist_ok=True)
+        with open(fp, "wb"):
+            pass
+        os.truncate(fp, size)
     tdir = os.path.join(base, "t")
     os.makedirs(tdir)
     tpaths = []
@@ -263,6 +270,9 @@ def snapshot(root):
         for f in fn:
             fp = os.path.join(dp, f)
             st = os.lstat(fp)
+            if st.st_size > (1 << 26):
+                files[comps + (f,)] = (b"<sparse %d>" % st.st_size, st.st_ino)     # never read: it has no data blocks
+                continue
             with open(fp, "rb") as h:
                 files[comps + (f,)] = (h.read(), st.st_ino)
     return dirs, files
@@ -279,6 +289,10 @@ def rel(root, absolute_hex):
     if p.startswith(rb + b"/"):
         return tuple(p[len(rb) + 1:].split(b"/"))
     return (b"\x00OUTSIDE",) + tuple(c for c in p.split(b"/") if c)
+
+def _limit_memory():
+    import resource
+    resource.setrlimit(resource.RLIMIT_AS, (2 << 30, 2 << 30))
 
 PROGRESS = re.compile(r"Success: (\d+), Failed: (\d+), Faulted: (\d+), Total: (\d+)")
 
@@ -311,7 +325,7 @@ def execute(w, keep=False, timeout=30):
         if getattr(w, "partial", None) is not None:
             args += ["--partial", "%d,%d" % w.partial]
         try:
-            p = subprocess.run(args, cwd=root, stdout=subprocess.PIPE, stderr=subprocess.PIPE, timeout=timeout)
+            p = subprocess.run(args, cwd=root, stdout=subprocess.PIPE, stderr=subprocess.PIPE, timeout=timeout, preexec_fn=_limit_memory)
             out, rc = p.stdout.decode("utf-8", "replace"), p.returncode
             err = p.stderr.decode("utf-8", "replace")
         except subprocess.TimeoutExpired as e:
@@ -712,4 +726,47 @@ def gen_world_dup_path_resize(rng):
     w.resize = rng.chance(4, 5)
     w.has_truth = True
     w.tag = "duplicate path inside one torrent (D6), resize"
+    return w
+
+
+def gen_world_sparse_candidate(rng):
+    """C16: a candidate of enormous (sparse) size really exists on disk: lengths the machine cannot hold in memory
+    must fault the piece, not abort the process"""
+    w = gen_world(rng, ntorrents=1)
+    big = rng.choice([2**40, 2**41 + 5])
+    if rng.chance(1, 2):
+        doc = G.benc(G.meta_doc(name=b"hugefile", piece_length=big, length=big, nhashes=1))
+    else:
+        doc = G.benc(G.meta_doc(name=b"hugemulti", piece_length=big + 4, files=[(big, [b"big"]), (4, [b"tail"])], nhashes=1))
+        w.add_file(w.scan[0] + (b"tail4",), b"tail")
+    w.docs = w.docs + [doc]
+    w.sparse[w.scan[0] + (b"sparse.bin",)] = big
+    w.has_truth = False
+    w.threads = 1
+    w.tag = "enormous declared length"
+    return w
+
+def gen_world_short_match(rng, flip=False):
+    """C16: a torrent crafted so that a SHORT read hashes to the piece hash: the image `x` is listed twice (5 and 2
+    bytes); the 2-byte entry's piece truncates the image, after which the 5-byte entry's segment reads short, and
+    the piece hash was chosen to be the hash of exactly those short bytes — the writer must not slice past the
+    end of the matched bytes"""
+    w = World()
+    bB, bA, bC = gen_content(rng, 2), gen_content(rng, 5), gen_content(rng, 3)
+    files = [(2, [b"x"]), (6, [b".pad", b"0"]), (5, [b"x"]), (3, [b"c"])]
+    h0 = hashlib.sha1(bB + bytes(6)).digest()
+    h1 = hashlib.sha1(bB + bC).digest()                  # crafted: hash of the short read of `x` followed by `c`
+    info_files = files if not flip else files
+    doc = G.meta_doc(name=b"crafted", piece_length=8, files=info_files, hashes=h0 + h1)
+    w.docs = [G.benc(doc)]
+    infod = [v for k, v in doc[1] if k == b"info"][0]
+    hexhash = hashlib.sha1(G.benc(infod)).hexdigest().encode()
+    w.dirs.add(w.export)
+    w.scan = [(b"scan0",)]
+    w.add_file((b"scan0", b"b2"), bB)
+    w.add_file((b"scan0", b"c3"), bC)
+    w.add_file(w.export + (hexhash, b"Data", b"crafted", b"x"), bA)      # 5 bytes: registered as a candidate of the 5-byte entry
+    w.add_file((b"bystander", b"note.txt"), b"do not touch")
+    w.has_truth = False
+    w.tag = "short read matching a crafted hash"
     return w
